@@ -4,17 +4,31 @@ import LeptosModel.Model.Keyed
 
 ```
 case <name>
-init <pre> <post> <bs> k k k…      build + mount a keyed list between <pre> and <post> sibling nodes
-update k k k…                      rebuild with the new key sequence
-trans <pre> <post> <bs> k… / k…    fresh `init` followed by `update`; prints the update's line
+init  <pre> <post> <bs> k k k…     build + mount a keyed list between <pre> and <post> sibling nodes
+initu <pre> <post> <bs> k k k…     build only (parent = None): the list is not in the DOM yet
+initf <pre> <post> <bs> k k k…     the same list as leptos `<ForEnumerate>` driven by a signal
+inits <pre> <post> <bs> k k k…     `<ForEnumerate>` over a keyed store field (row k shows its label, k*10 at first)
+update k k k…                      rebuild with the new key sequence (`updset` / `updroot`: other store writes)
+trans[f] <pre> <post> <bs> k… / k… fresh `init[f]` followed by `update`; prints the update's line
 sib                                KeyedState::insert_before_this(<fresh node>)
-remount <j>|e                      KeyedState::unmount, then mount before the j-th following sibling / at the end
+unmount / mount <j>|e / remount <j>|e   KeyedState::unmount / mount before the j-th following sibling (or at the end) / both
+inner <k> i i i…                   shape `n`: rebuild the inner keyed list of the outer item k
+label <k> <v>                      keyed store field: write row k's label
 ```
-Output of every list op:
+`<bs>`: item shapes, see `shapeKinds`. Output of every list op:
 `<children of the parent> ; e=<KeyedState::elements()> ; b=<k@i…> ; u=<k…> ; s=<k>i…> ## <verdict>`
 children: `P<i>` leading siblings, `S<i>` siblings inserted by `sib`, `Q<i>` following siblings, `M` the
-list's marker, `k:j` node j of the item keyed k. -/
+list's marker, `k:j` node j of the item keyed k (`k.i:0`, `k.M` for the nodes of a nested list). -/
 open Leptos Leptos.Wire Leptos.Keyed
+
+/-- item shapes: kinds of the nodes of one item (`e` element, `t` text, `c` comment / placeholder) -/
+def shapeKinds : String → Option (List Char)
+  | "1" => some ['e'] | "2" => some ['e', 'e'] | "3" => some ['e', 'e', 'e']
+  | "t" => some ['t'] | "te" => some ['t', 'e'] | "et" => some ['e', 't']
+  | "u" => some ['c'] | "ue" => some ['c', 'e'] | "eu" => some ['e', 'c'] | "oe" => some ['c', 'e']
+  | "v2" => some ['e', 'e', 'c'] | "v0" => some ['c'] | "k2" => some ['e', 'e', 'c'] | "k0" => some ['c']
+  | "n" => some ['e', 'e', 'c']
+  | _ => none
 
 structure DState where
   ks : Option KState := none
@@ -22,14 +36,20 @@ structure DState where
   pre : List (NodeId × String) := []
   post : List (NodeId × String) := []
   nsib : Nat := 0
-  /-- every item built in this case (for naming nodes) -/
-  registry : List Item := []
+  /-- name and kind of every item node built in this case -/
+  names : List (NodeId × String × Char) := []
+  kinds : List Char := []
   /-- an earlier step of this case left the DOM in the wrong order -/
   tainted : Bool := false
   /-- the list is a leptos `<ForEnumerate>`: `set_index` writes a signal, the harness reads it -/
   isFor : Bool := false
   /-- index every item was last told (`view_fn(index, _)`, then `set_index`) -/
   told : List (Key × Nat) := []
+  /-- keyed store field: the rows' labels -/
+  labels : Option (List (Key × Nat)) := none
+  /-- shape `n`: the inner list of every outer item (its `w.kids` / `w.next` are refreshed on use) -/
+  nested : Bool := false
+  inners : List (Key × KState) := []
   deriving Inhabited
 
 def idxIn (l : List Nat) (k : Nat) : Nat := (l.idxOf? k).getD l.length
@@ -39,9 +59,14 @@ def nodeName (st : DState) (marker : NodeId) (n : NodeId) : String :=
   match (st.pre ++ st.post).find? (·.1 == n) with
   | some (_, s) => s
   | none =>
-    match st.registry.find? (·.nodes.contains n) with
-    | some it => s!"{it.key}:{idxIn it.nodes n}"
+    match st.names.find? (·.1 == n) with
+    | some (_, s, _) => s
     | none => "?"
+
+def isElement (st : DState) (n : NodeId) : Bool :=
+  match st.names.find? (·.1 == n) with
+  | some (_, _, k) => k == 'e'
+  | none => false
 
 def joinOr (sep : String) (l : List String) : String :=
   if l.isEmpty then "-" else sep.intercalate l
@@ -52,26 +77,42 @@ def tell (told : List (Key × Nat)) (log : Log) : List (Key × Nat) :=
 
 def toldOf (told : List (Key × Nat)) (k : Key) : Option Nat := (told.find? (·.1 == k)).map (·.2)
 
-def render (st : DState) (s : KState) : String :=
+def mounted (s : KState) : Bool := s.w.kids.contains s.marker
+
+def render (st : DState) (s : KState) (log : Log) : String :=
   let kids := " ".intercalate (s.w.kids.map (nodeName st s.marker))
   let items := s.w.storage.filterMap id
   let els := if st.isFor then "-" else
-    joinOr "," (items.flatMap fun it => (List.range it.nodes.length).map fun j => s!"{it.key}:{j}")
-  let b := joinOr "," (s.w.log.builds.map fun (k, i) => s!"{k}@{i}")
-  let u := joinOr "," (s.w.log.unmounts.map toString)
+    joinOr "," ((items.flatMap (·.nodes)).filter (isElement st) |>.map (nodeName st s.marker))
+  let b := joinOr "," (log.builds.map fun (k, i) => s!"{k}@{i}")
+  let u := joinOr "," (log.unmounts.map toString)
   let si :=
     if st.isFor then "i=" ++ joinOr "," (items.map fun it =>
       s!"{it.key}=" ++ (match toldOf st.told it.key with | some i => toString i | none => "?"))
-    else "s=" ++ joinOr "," (s.w.log.setIndex.map fun (k, i) => s!"{k}>{i}")
-  s!"{kids} ; e={els} ; b={b} ; u={u} ; {si}"
+    else "s=" ++ joinOr "," (log.setIndex.map fun (k, i) => s!"{k}>{i}")
+  let l := match st.labels with
+    | some ls => " ; l=" ++ joinOr "," (items.map fun (it : Item) =>
+        s!"{it.key}=" ++ (match ls.find? (fun (p : Key × Nat) => p.1 == it.key) with
+          | some (_, v) => toString v | none => "?"))
+    | none => ""
+  s!"{kids} ; e={els} ; b={b} ; u={u} ; {si}{l}"
 
 def sortNat (l : List Nat) : List Nat := l.mergeSort (· ≤ ·)
 
-def domOrderOk (st : DState) (s : KState) : Bool :=
-  s.w.kids == st.pre.map (·.1) ++ blocksOf s.w.storage ++ s.marker :: st.post.map (·.1)
+/-- the children the property expects: the list between its siblings if it is mounted, the siblings alone if not -/
+def domOrderOk (st : DState) (s : KState) (isMounted : Bool) : Bool :=
+  if isMounted then
+    s.w.kids == st.pre.map (·.1) ++ blocksOf s.w.storage ++ s.marker :: st.post.map (·.1)
+  else s.w.kids == st.pre.map (·.1) ++ st.post.map (·.1)
+
+/-- `rebuild` of a list that is not in the DOM but still holds its old parent (F-C11-2): every insertion of a
+DOM move or an addition is a swallowed `NotFoundError` -/
+def staleParentErrors (s0 : KState) (to : List Key) : Bool :=
+  s0.parent && !mounted s0 &&
+    (((unpackMoves (diff s0.hashed to)).1.any (·.moveInDom)) || !(unpackMoves (diff s0.hashed to)).2.isEmpty)
 
 /-- the property's clauses on one `update` (old state `s0`, new state `s1`); `none` = ok -/
-def judgeUpdate (st : DState) (s0 s1 : KState) (to : List Key) : Option String :=
+def judgeUpdate (st : DState) (s0 s1 : KState) (to : List Key) (isMounted : Bool) : Option String :=
   let frm := s0.hashed
   let old := s0.w.storage.filterMap id
   let new := s1.w.storage.filterMap id
@@ -92,100 +133,221 @@ def judgeUpdate (st : DState) (s0 s1 : KState) (to : List Key) : Option String :
             (let calls := log.setIndex.filter (·.1 == k)
              let fin := idxIn to k
              (idxIn frm k != fin && calls.isEmpty) || (calls.getLast?.any (·.2 != fin)))) then some "set-index" else
-  if !domOrderOk st s1 then
+  if staleParentErrors s0 to then some "stale-parent" else
+  if !domOrderOk st s1 isMounted then
     -- `settledMonotone diff` holds for all duplicate-free sequences since the repair of F-C11-1
     -- (`C11_settled_monotone`); the class word is kept so that a regression would be named
     some (if st.tainted || !settledMonotone diff frm to then "dom-order-move-elided" else "dom-order")
   else none
 
+def verdictStr (v : Option String) : String :=
+  match v with | none => "ok" | some c => "fail " ++ c
+
 def finish (st : DState) (s : KState) (v : Option String) : DState × String :=
-  let st := { st with ks := some s, tainted := !domOrderOk st s, told := tell st.told s.w.log }
+  let isM := mounted s
+  let st := { st with ks := some s, tainted := !domOrderOk st s isM, told := tell st.told s.w.log }
   -- `<ForEnumerate>`: every mounted item's index signal holds its position
   let v := if v.isNone && st.isFor &&
       (List.range s.hashed.length).any (fun j => (s.hashed[j]?.bind (toldOf st.told)) != some j)
     then some "set-index" else v
-  (st, render st s ++ " ## " ++ (match v with | none => "ok" | some c => "fail " ++ c))
+  (st, render st s s.w.log ++ " ## " ++ verdictStr v)
 
 def parseNats (ws : List String) : Option (List Nat) := ws.mapM String.toNat?
 
-def doInit (isFor : Bool) (pre post bs : Nat) (keys : List Key) : DState × String :=
-  let preIds := List.range pre
-  let s := (build bs keys preIds pre).mount none
-  let postIds := List.range' s.w.next post
-  let s := { s with w := { s.w with kids := s.w.kids ++ postIds, next := s.w.next + post } }
-  let st : DState :=
-    { pre := preIds.map fun i => (i, s!"P{i}"),
-      post := (List.range post).map fun i => (s.w.next - post + i, s!"Q{i}"),
-      registry := s.w.storage.filterMap id, isFor := isFor }
-  let v :=
-    if s.w.log.builds != (List.range keys.length).zipWith (fun i k => (k, i)) keys then some "builds"
-    else if (s.w.storage.filterMap id).map (·.key) != keys then some "storage"
-    else if !domOrderOk st s then some "dom-order" else none
-  finish st s v
+/-- names of the nodes of freshly built items (flat shapes) -/
+def namesOf (kinds : List Char) (items : List Item) : List (NodeId × String × Char) :=
+  items.flatMap fun it =>
+    (List.range it.nodes.length).filterMap fun j =>
+      match it.nodes[j]?, kinds[j]? with
+      | some n, some k => some (n, s!"{it.key}:{j}", k)
+      | _, _ => none
+
+/-- shape `n`: the inner list `[0, 1]` an outer item starts with: its three nodes are inner item 0, inner item 1,
+the inner marker -/
+def innerOf (outer : Item) (parent : Bool) (kids : List NodeId) (next : Nat) : Option KState :=
+  match outer.nodes with
+  | [a, b, m] =>
+    some { marker := m, hashed := [0, 1], bs := 1, parent := parent,
+           w := { kids := kids, storage := [some { key := 0, nodes := [a] }, some { key := 1, nodes := [b] }], next := next } }
+  | _ => none
+
+def innerNames (o : Key) (inner : KState) : List (NodeId × String × Char) :=
+  (inner.marker, s!"{o}.M", 'c') ::
+    ((inner.w.storage.filterMap id).flatMap fun it => it.nodes.map fun n => (n, s!"{o}.{it.key}:0", 'e'))
+
+/-- register the items built by the last op -/
+def register (st : DState) (s : KState) : DState :=
+  let built := (s.w.storage.filterMap id).filter fun it => s.w.log.builds.any (·.1 == it.key)
+  if st.nested then
+    built.foldl (fun st it =>
+      match innerOf it s.parent s.w.kids s.w.next with
+      | some inner =>
+        { st with inners := (it.key, inner) :: st.inners.filter (·.1 != it.key),
+                  names := st.names ++ innerNames it.key inner }
+      | none => st) st
+  else { st with names := st.names ++ namesOf st.kinds built }
+
+def doInit (mode : String) (pre post : Nat) (shape : String) (keys : List Key) : Option (DState × String) :=
+  match shapeKinds shape with
+  | none => none
+  | some kinds =>
+    let isFor := mode == "initf" || mode == "inits"
+    if isFor && !(shape == "1" || shape == "2" || shape == "3") then none else
+    let preIds := List.range pre
+    let s0 := build kinds.length keys preIds pre
+    let s := if mode == "initu" then s0 else s0.mount none
+    let postIds := List.range' s.w.next post
+    let s := { s with w := { s.w with kids := s.w.kids ++ postIds, next := s.w.next + post } }
+    let st : DState :=
+      { pre := preIds.map fun i => (i, s!"P{i}"),
+        post := (List.range post).map fun i => (s.w.next - post + i, s!"Q{i}"),
+        kinds := kinds, isFor := isFor, nested := shape == "n",
+        labels := if mode == "inits" then some (keys.map fun k => (k, k * 10)) else none }
+    let st := register st s
+    let v :=
+      if s.w.log.builds != (List.range keys.length).zipWith (fun i k => (k, i)) keys then some "builds"
+      else if (s.w.storage.filterMap id).map (·.key) != keys then some "storage"
+      else if !domOrderOk st s (mounted s) then some "dom-order" else none
+    some (finish st s v)
 
 def doUpdate (st : DState) (s0 : KState) (to : List Key) : DState × String :=
   let s1 := rebuild s0 to
-  let st := { st with registry := st.registry ++ (s1.w.storage.filterMap id).filter (!st.registry.contains ·) }
-  finish st s1 (judgeUpdate st s0 s1 to)
+  let st := register st s1
+  let st := { st with
+    labels := st.labels.map fun ls => to.map fun k =>
+      (k, match ls.find? (·.1 == k) with | some (_, v) => v | none => k * 10),
+    inners := st.inners.filter fun p => to.contains p.1 }
+  -- the list is expected in the DOM iff it was there before
+  finish st s1 (judgeUpdate st s0 s1 to (mounted s0))
+
+/-- shape `n`: rebuild the inner list of the outer item `o` -/
+def doInner (st : DState) (s0 : KState) (o : Key) (to : List Key) : DState × String :=
+  match st.inners.find? (·.1 == o), (s0.w.storage.filterMap id).find? (·.key == o) with
+  | some (_, inner0), some outerItem =>
+    let inner0 := { inner0 with w := { inner0.w with kids := s0.w.kids, next := s0.w.next } }
+    let inner1 := rebuild inner0 to
+    let outerItem' : Item := { outerItem with nodes := blocksOf inner1.w.storage ++ [inner1.marker] }
+    let s1 : KState :=
+      { s0 with w := { s0.w with
+          kids := inner1.w.kids, next := inner1.w.next, log := {},
+          storage := s0.w.storage.map fun x => if x == some outerItem then some outerItem' else x } }
+    let newNames := ((inner1.w.storage.filterMap id).filter fun it => inner1.w.log.builds.any (·.1 == it.key)).flatMap
+      fun it => it.nodes.map fun n => (n, s!"{o}.{it.key}:0", 'e')
+    let st := { st with names := st.names ++ newNames, inners := (o, inner1) :: st.inners.filter (·.1 != o) }
+    -- the inner list's own clauses (storage, builds, identity, unmounts, set_index); the DOM clause is the outer one
+    let v :=
+      match judgeUpdate { st with pre := [], post := [] } inner0 inner1 to false with
+      | some "dom-order" => none
+      | some "dom-order-move-elided" => none
+      | v => v
+    let v := if v.isNone && !domOrderOk st s1 (mounted s1) then some "dom-order" else v
+    let st := { st with ks := some s1, tainted := !domOrderOk st s1 (mounted s1) }
+    (st, render st s1 inner1.w.log ++ " ## " ++ verdictStr v)
+  | _, _ => (st, "bad-op")
 
 def splitSlash (ws : List String) : Option (List String × List String) :=
   match ws.span (· != "/") with
   | (a, _ :: b) => some (a, b)
   | _ => none
 
+def nodupKeys (ks : List Nat) : Bool := ks.eraseDups.length == ks.length
+
+def doMount (st : DState) (s0 : KState) (unmount : Bool) (mount : Option Nat) : DState × String :=
+  let s0 := { s0 with w := { s0.w with log := {} } }
+  let s1 := if unmount then s0.unmount else s0
+  -- unmounting the outer items unmounts the nested lists: they forget their parent too
+  let st := if unmount then { st with inners := st.inners.map fun p => (p.1, { p.2 with parent := false }) } else st
+  let (s2, st) :=
+    match mount with
+    | some jn =>
+      let ref := (st.post[jn]?).map (·.1)
+      (s1.mount ref, { st with pre := st.pre ++ st.post.take jn, post := st.post.drop jn,
+                               inners := st.inners.map fun p => (p.1, { p.2 with parent := true }) })
+    | none => (s1, st)
+  finish st s2 (if !domOrderOk st s2 (mounted s2) then some "dom-order" else none)
+
 def step (st : DState) (line : String) : DState × String :=
   match words line with
   | ["case", n] => ({}, s!"case {n}")
-  | "update" :: ks =>
-    match st.ks, parseNats ks with
-    | some s0, some ks => if ks.eraseDups.length != ks.length then (st, "bad-op") else doUpdate st s0 ks
-    | _, _ => (st, "bad-op")
   | ["sib"] =>
     match (if st.isFor then none else st.ks) with
     | some s0 =>
       let child := s0.w.next
       let s0 := { s0 with w := { s0.w with next := s0.w.next + 1, log := {} } }
       let (s1, ok) := s0.insertBeforeThis child
-      let st := { st with pre := st.pre ++ [(child, s!"S{st.nsib}")], nsib := st.nsib + 1 }
-      finish st s1 (if !ok then some "insert-before-this" else
-        if !domOrderOk st s1 then some (if st.tainted then "dom-order-move-elided" else "dom-order") else none)
+      let isM := mounted s0
+      -- a list that is not in the DOM answers `false` and inserts nothing
+      let st := if isM then { st with pre := st.pre ++ [(child, s!"S{st.nsib}")], nsib := st.nsib + 1 } else st
+      finish st s1 (if ok != isM then some "insert-before-this" else
+        if !domOrderOk st s1 (mounted s1) then some (if st.tainted then "dom-order-move-elided" else "dom-order") else none)
     | none => (st, "bad-op")
-  | ["remount", j] =>
+  | ["unmount"] =>
     match (if st.isFor then none else st.ks) with
-    | some s0 =>
-      let jn := if j == "e" then some st.post.length else j.toNat?
-      match jn with
-      | some jn =>
-        if jn > st.post.length then (st, "bad-op") else
-        let s0 := { s0 with w := { s0.w with log := {} } }
-        let ref := (st.post[jn]?).map (·.1)
-        let s1 := s0.unmount.mount ref
-        let st := { st with pre := st.pre ++ st.post.take jn, post := st.post.drop jn }
-        -- unmounting and mounting again puts every block back in storage order
-        let st := { st with tainted := false }
-        finish st s1 (if !domOrderOk st s1 then some "dom-order" else none)
-      | none => (st, "bad-op")
+    | some s0 => doMount st s0 true none
     | none => (st, "bad-op")
-  | cmd :: p :: q :: b :: ks =>
-    if cmd == "init" || cmd == "initf" then
-      match p.toNat?, q.toNat?, b.toNat?, parseNats ks with
-      | some p, some q, some b, some ks =>
-        if b == 0 || b > 3 || p > 64 || q > 64 || ks.eraseDups.length != ks.length then (st, "bad-op")
-        else doInit (cmd == "initf") p q b ks
-      | _, _, _, _ => (st, "bad-op")
-    else if cmd == "trans" || cmd == "transf" then
-      match p.toNat?, q.toNat?, b.toNat?, splitSlash ks with
-      | some p, some q, some b, some (f, t) =>
-        match parseNats f, parseNats t with
-        | some f, some t =>
-          if b == 0 || b > 3 || p > 64 || q > 64 || f.eraseDups.length != f.length
-              || t.eraseDups.length != t.length then (st, "bad-op") else
-          let (st1, _) := doInit (cmd == "transf") p q b f
-          match st1.ks with
-          | some s0 => doUpdate st1 s0 t
+  | [cmd, j] =>
+    if cmd == "remount" || cmd == "mount" then
+      match (if st.isFor then none else st.ks) with
+      | some s0 =>
+        match (if j == "e" then some st.post.length else j.toNat?) with
+        | some jn => if jn > st.post.length then (st, "bad-op") else doMount st s0 (cmd == "remount") (some jn)
+        | none => (st, "bad-op")
+      | none => (st, "bad-op")
+    else if cmd == "update" || cmd == "updset" || cmd == "updroot" || cmd == "inner" then
+      -- one key / no key forms are handled below
+      match cmd, st.ks, j.toNat? with
+      | "inner", some s0, some o => if st.nested then doInner st s0 o [] else (st, "bad-op")
+      | "inner", _, _ => (st, "bad-op")
+      | _, some s0, some k =>
+        if cmd != "update" && st.labels.isNone then (st, "bad-op") else doUpdate st s0 [k]
+      | _, _, _ => (st, "bad-op")
+    else (st, "bad-op")
+  | ["label", k, v] =>
+    match st.ks, st.labels, k.toNat?, v.toNat? with
+    | some s0, some ls, some k, some v =>
+      if !s0.hashed.contains k then (st, "bad-op") else
+      let s1 := { s0 with w := { s0.w with log := {} } }
+      let st := { st with labels := some (ls.map fun p => if p.1 == k then (k, v) else p) }
+      finish st s1 (if !domOrderOk st s1 (mounted s1) then some "dom-order" else none)
+    | _, _, _, _ => (st, "bad-op")
+  | cmd :: rest =>
+    if cmd == "update" || cmd == "updset" || cmd == "updroot" then
+      match st.ks, parseNats rest with
+      | some s0, some ks =>
+        if !nodupKeys ks || (cmd != "update" && st.labels.isNone) then (st, "bad-op") else doUpdate st s0 ks
+      | _, _ => (st, "bad-op")
+    else if cmd == "inner" then
+      match st.ks, parseNats rest with
+      | some s0, some (o :: ks) => if !st.nested || !nodupKeys ks then (st, "bad-op") else doInner st s0 o ks
+      | _, _ => (st, "bad-op")
+    else if cmd == "init" || cmd == "initf" || cmd == "initu" || cmd == "inits" then
+      match rest with
+      | p :: q :: b :: ks =>
+        match p.toNat?, q.toNat?, parseNats ks with
+        | some p, some q, some ks =>
+          if p > 64 || q > 64 || !nodupKeys ks then (st, "bad-op") else
+          match doInit cmd p q b ks with
+          | some r => r
           | none => (st, "bad-op")
-        | _, _ => (st, "bad-op")
-      | _, _, _, _ => (st, "bad-op")
+        | _, _, _ => (st, "bad-op")
+      | _ => (st, "bad-op")
+    else if cmd == "trans" || cmd == "transf" then
+      match rest with
+      | p :: q :: b :: ks =>
+        match p.toNat?, q.toNat?, splitSlash ks with
+        | some p, some q, some (f, t) =>
+          match parseNats f, parseNats t with
+          | some f, some t =>
+            if p > 64 || q > 64 || !nodupKeys f || !nodupKeys t then (st, "bad-op") else
+            match doInit (if cmd == "transf" then "initf" else "init") p q b f with
+            | some (st1, _) =>
+              match st1.ks with
+              | some s0 => doUpdate st1 s0 t
+              | none => (st, "bad-op")
+            | none => (st, "bad-op")
+          | _, _ => (st, "bad-op")
+        | _, _, _ => (st, "bad-op")
+      | _ => (st, "bad-op")
     else (st, "bad-op")
   | _ => (st, "bad-op")
 
